@@ -437,6 +437,7 @@ where
         );
         if meta.hang || sc.freeze.is_some() {
             // abandoned workers have unwound; the shared state is not examined further
+            run.inner.lock().unwrap_or_else(|e| e.into_inner()).poisoned = true;
             let _q = Quiet::new();
             drop(its);
             return meta;
